@@ -148,6 +148,30 @@ class VAttrs(V):
 
 
 @dataclass
+class VOptTable(V):
+    """a PlantUML option table {class: {option: value}, "skinparams": {...}} (heap fields opt_has / opt_get)"""
+    term: z3.ExprRef
+
+
+@dataclass
+class VOpts(V):
+    """one per-class option dictionary {option name: value} (heap fields od_has / od_val)"""
+    term: z3.ExprRef
+
+
+@dataclass
+class VMro(V):
+    """cls.__mro__"""
+    cls: z3.ExprRef
+
+
+@dataclass
+class VStrSet(V):
+    """a set of strings whose contents are not modelled (the per-object skinparam lines of the PlantUML renderer)"""
+    what: str = ""
+
+
+@dataclass
 class VRaise(V):
     exc: str
     info: str = ""
